@@ -28,7 +28,7 @@ def case_strategy(max_n=40, max_updates=6):
             "F0": hist.f0_spec(),
             "flow": hist.flow_spec(2.0),
             "cuts": hist.cuts_spec(max_updates),
-            "u2": st.floats(-16.0, 3.0),
+            "u2": st.one_of(st.floats(-16.0, 3.0), st.sampled_from([-16.0, -15.5, -15.0, 3.0, 0.0]), st.floats(-16.0, -15.0), st.floats(2.0, 3.0)),
         }
     )
 
